@@ -26,12 +26,25 @@
 (* HashConsistent, hold in every state reachable by any sequence of        *)
 (* assignments (the state space is closed).                                *)
 (*                                                                         *)
+(* REJECTED assignments are steps too (Reject...): the full string or a    *)
+(* component is assigned a value for which the (recomposed) string must be *)
+(* refused -- Rejected(s): invalid and outside D2's unspecified zone: a    *)
+(* ':' in the upstream part without an epoch (":0", passes the regular     *)
+(* expression, fails the colon rule), a non-numeric epoch ("-", ":"), an   *)
+(* empty string / empty upstream, a foreign character (stands for a value  *)
+(* of a wrong type, whose str() is no version).  The call raises and the   *)
+(* object must be EXACTLY what it was: same string, same key, hence the    *)
+(* same comparisons and hash; every later assignment works as before (the  *)
+(* state is unchanged, so this holds by construction of the closed space). *)
+(*                                                                         *)
 (* Negative controls:                                                      *)
 (*   StaleKey  = TRUE : the key survives the assignment (memoised          *)
 (*               comparison key / hash / parsed tuple not invalidated)     *)
 (*   NoResplit = TRUE : after a COMPONENT assignment the key is built from *)
 (*               the assigned components, the recomposed string is not     *)
 (*               split again (stale components after a boundary move)      *)
+(*   PartialOnReject = TRUE : a rejected assignment leaves the assigned    *)
+(*               component(s) in the key before raising (partial update)   *)
 (* each makes TLC report Agree, and (separately) HashConsistent, violated. *)
 (*                                                                         *)
 (* If EmitStride > 0 the selected transitions are printed as MUT lines     *)
@@ -42,7 +55,7 @@
 (***************************************************************************)
 EXTENDS DpkgVersionMC
 
-CONSTANTS StaleKey, NoResplit,
+CONSTANTS StaleKey, NoResplit, PartialOnReject,
           Boundary,       \* TRUE: also the boundary-moving assignment values
           MaxFull         \* longest string an object may reach (a revision "x-0" assigned again and
                           \* again would push one more "-x" into the upstream part each time)
@@ -110,7 +123,30 @@ AssignUpstream == \E u \in Ups(<<>>, <<>>) \cup UpsB :
 AssignRevision == \E rv \in Revs \cup RevsB :
                      Assign("revision", rv, Join(P1.e, P1.u, rv), InfoFromParts(P1.e, P1.u, rv))
 
-ONext == AssignFull \/ AssignEpoch \/ AssignUpstream \/ AssignRevision
+\* ---- rejected assignments: the object is unchanged
+Junk == <<32>>                                   \* a foreign character: the str() of a wrong-typed value
+Reject(how, arg, s, partialkey) ==
+    /\ Rejected(s)
+    /\ v1' = v1
+    /\ ck1' = IF PartialOnReject THEN partialkey ELSE ck1
+    /\ out' = Observe(v1, ck1', v2, ck2)
+    /\ UNCHANGED <<v2, v3, ck2>>
+    /\ (SelectedMut(s, DenseStride) =>
+          PrintT(<<"REJ", ToJson(<<v1, v2, how, arg, out.ref, out.rev, InfoAll[v1].c = InfoAll[v2].c>>)>>))
+
+\* values that make the string unacceptable: junk, lone separators, ':' without a numeric epoch
+BadVals   == {Junk, <<>>, <<Colon>>, <<Hyphen>>, <<Colon, Zero>>, <<Zero, Colon>>, <<Zero, Hyphen, Zero, Colon, Zero>>}
+RejectFull     == \E s \in BadVals \cup {x \o <<Colon>> \o y : x \in {<<>>, <<Hyphen>>}, y \in One} :
+                     Reject("full", s, s, InfoFromParts(<<>>, s, <<>>))
+RejectEpoch    == \E e \in BadVals \ {<<>>} :
+                     Reject("epoch", e, Join(e, P1.u, P1.r), InfoFromParts(e, P1.u, P1.r))
+RejectUpstream == \E u \in BadVals \ {<<>>} :         \* (None / "" as upstream: unspecified, DESIGN C14)
+                     Reject("upstream", u, Join(P1.e, u, P1.r), InfoFromParts(P1.e, u, P1.r))
+RejectRevision == \E rv \in BadVals \ {<<>>} :
+                     Reject("revision", rv, Join(P1.e, P1.u, rv), InfoFromParts(P1.e, P1.u, rv))
+
+ONext == \/ AssignFull \/ AssignEpoch \/ AssignUpstream \/ AssignRevision
+         \/ RejectFull \/ RejectEpoch \/ RejectUpstream \/ RejectRevision
 OSpec == OInit /\ [][ONext]_ovars
 
 KeyFresh == ck1 = InfoAll[v1] /\ ck2 = InfoAll[v2]
